@@ -822,6 +822,87 @@ def rule_display(ctx, rep, rid="R-C05-display"):
                 r.ok(inst, where, "no project exists yet at this call")
 
 
+def rule_synth(ctx, rep, rid="R-C05-synth"):
+    """A transform of the analyzer replaces a node by another one (a late-bound name by a variable or an enumeration value).  The node it
+    builds stands where the old one stood, so every part of it that carries a position (Id, Type, SourceSpan) must be taken from the node
+    being replaced - not from the state of the transform, which holds names copied from *other* places (the declaration of the variable, the
+    enclosing POU).  A part with a foreign position stretches the node's span (span() joins the parts) from that other place to here, and a
+    label built from it covers text it is not about."""
+    r = rep.rule(rid, "a node built by a fold of the analyzer takes its position-bearing parts (Id, Type, SourceSpan) from the node it replaces, never from the "
+                      "state of the transform (names remembered from other places)", floor=3, floor_what="position-bearing parts of nodes built in fold methods")
+    POS = ("ironplc_dsl::core::Id", "ironplc_dsl::common::Type", "ironplc_dsl::core::SourceSpan")
+
+    def origins(b, op, depth=10, seen=None):
+        """roots the value of an operand may come from (through clones, moves, Some(..)/tuple wrappers and every definition of a local)"""
+        seen = seen if seen is not None else set()
+        p = op_place(op)
+        if p is None or depth <= 0:
+            return set()
+        rt = b.root(p)
+        if rt[0] <= b.f["argc"]:
+            return {(rt[0], tuple(x[2] for x in rt[1] if isinstance(x, list) and x[0] == "f"))}
+        if rt[0] in seen:
+            return set()
+        seen.add(rt[0])
+        out = set()
+        ds = b.defs.get(rt[0], [])
+        if not ds:
+            return {(rt[0], ())}
+        for d in ds:
+            if d[0] == "call":
+                nm = (d[2].callee or d[2].u or "").split("::")[-1]
+                if nm in ("clone", "to_owned", "into", "from", "as_ref", "borrow", "deref", "unwrap", "expect", "cloned", "as_deref") and d[2].args:
+                    out |= origins(b, d[2].args[0], depth - 1, seen)
+                else:
+                    out.add((rt[0], ()))
+            elif d[3][0] == "use":
+                out |= origins(b, d[3][1], depth - 1, seen)
+            elif d[3][0] == "ref":
+                out |= origins(b, ["cp", d[3][2]], depth - 1, seen)
+            elif d[3][0] == "agg":
+                for o2 in d[3][2]:
+                    out |= origins(b, o2, depth - 1, seen)
+            else:
+                out.add((rt[0], ()))
+        return out
+    n = 0
+    for b in sorted(ctx.prog.bodies.values(), key=lambda x: x.id):
+        im = b.f.get("impl") or {}
+        host = b
+        if b.f["dk"] == "Closure":
+            host = ctx.prog.bodies.get(b.f.get("parent")) or b
+            im = host.f.get("impl") or {}
+        if b.f["crate"] != "ironplc_analyzer" or im.get("trait_def") != "ironplc_dsl::fold::Fold" or "::test" in norm(b.id) or b.f["dk"] == "Closure":
+            continue
+        fn = norm(b.id).replace("ironplc_analyzer::", "")
+        k = {}
+        for i, j, st in sorted(b.all_stmts(), key=lambda t: (t[2][3][0], t[2][3][1]) if len(t[2]) > 3 else (0, 0)):
+            if not (st[0] == "=" and st[2][0] == "agg" and isinstance(st[2][1], dict) and st[2][1].get("k") == "adt" and (st[2][1].get("adt") or "").startswith("ironplc_dsl::")):
+                continue
+            adt = ctx.facts.adts.get(st[2][1]["adt"])
+            if not adt:
+                continue
+            var = [v for v in adt["variants"] if v["name"] == st[2][1]["variant"]]
+            if not var:
+                continue
+            tys = {fl["name"]: fl["ty"] for fl in var[0]["fields"]}
+            for fname, o in zip(st[2][1].get("fields", []), st[2][2]):
+                ty = tys.get(fname, "")
+                if not any(pt in ty for pt in POS):
+                    continue
+                n += 1
+                node = "%s::%s.%s" % (st[2][1]["adt"].split("::")[-1], st[2][1]["variant"], fname)
+                k[node] = k.get(node, 0) + 1
+                inst = "%s|%s#%d" % (fn, node, k[node])
+                where = loc_str(b.f, st[3])
+                state = sorted(fs[0] for l, fs in origins(b, o) if l == 1 and fs)
+                if state:
+                    fld = state[0]
+                    r.finding(inst + "|from-transform-state:" + fld, where, "this part of the new node is a copy of `self.%s`, a name remembered from another place: the node's span now reaches from there to here" % fld)
+                else:
+                    r.ok(inst, where)
+
+
 def panics_int(b, op):
     from rules import panics
     return panics._int_const(b, op)
@@ -1142,6 +1223,7 @@ def run(ctx, rep):
     rule_rangeend(ctx, rep)
     rule_fileidx(ctx, rep)
     rule_display(ctx, rep)
+    rule_synth(ctx, rep)
     from rules.c15 import rule_verbatim
     rule_verbatim(ctx, rep, rid="R-C05-verbatim")
     from rules import c05_blank, c05_joinorder
